@@ -220,7 +220,7 @@ def locations(I, sim, tab, options=()):
         seen.add(nm)
     # every name that the table or the documentation mentions denotes a struct member: that member's own bytes (offset from
     # the headers' debug info, not from the table) must be among the persisted locations
-    have = {lc.recipe for lc in out}
+    have = {(lc.recipe, lc.ty.bits) for lc in out}          # same place but another width is another claim (a table entry narrower than the member)
     names = list(options) + [e['name'] for e in tab if e['dtype'] in SCALAR_SIZE]
     done = set()
     for nm in names:
@@ -237,8 +237,8 @@ def locations(I, sim, tab, options=()):
             cand = [Loc((nm if nm not in seen else 'member:' + nm) + '.' + c, F64, nm, (off + 8 * k, False, 0), True) for k, c in enumerate('xyz')]
         else: cand = []
         for lc in cand:
-            if lc.recipe not in have:
-                have.add(lc.recipe); out.append(lc)
+            if (lc.recipe, lc.ty.bits) not in have:
+                have.add((lc.recipe, lc.ty.bits)); out.append(lc)
     return out
 
 def symbolise(I, sim, locs, keep=()):
